@@ -8,7 +8,10 @@ Static Solver: all multigraphs (DAGs, cycles of total gap -1/0/+1, random digrap
 families); its report is the UnsatisfiedConstraint thrown by the closing scan: a normal return must satisfy every
 constraint (sat_or_flagged with no flags), a throw is legitimate iff the verified detector finds a positive cycle; a throw
 on a feasible cyclic system is the known finding static_solver_throws_on_feasible_cycle (classifier in vlib/c01lib.py).
-Histories may also change Variable::weight between solves (op W; model: Vpsc/VpscModelW.v, proofs: Vpsc/VpscWeight.v)."""
+Histories may also change Variable::weight between solves (op W; model: Vpsc/VpscModelW.v, proofs: Vpsc/VpscWeight.v)
+and re-use Variable / Constraint OBJECTS across successive IncSolvers (ops R, P: destroy the solver, build a new one on
+a subset of the constraint objects, addConstraint the remaining objects; the model has no object identity and starts
+a fresh state - every segment is a history from `init`, which the theorems cover)."""
 import os, json
 from fractions import Fraction as Fr
 from vlib import common as C
@@ -28,7 +31,7 @@ def run(tier):
     quick = tier == 'quick'
     sets = []   # (label, impl, instances, enum)
     import copy
-    for cname in ('c01_regressions.txt', 'c01_final_scan_rounding.txt', 'c01_static_cycle.txt', 'c01_weight_histories.txt'):
+    for cname in ('c01_regressions.txt', 'c01_final_scan_rounding.txt', 'c01_static_cycle.txt', 'c01_weight_histories.txt', 'c01_object_reuse.txt'):
         corpus = L.load_corpus(cname)
         if corpus:
             sets.append(('corpus:' + cname, 'vpsc', corpus, False))
@@ -51,6 +54,16 @@ def run(tier):
     # histories that also change Variable::weight between solves (pin / unpin idiom)
     sets.append(('inc-vpsc-weights', 'vpsc', gen(250 if quick else 2500, 10, 'I', True, True), False))
     sets.append(('inc-avoid-weights', 'avoid', gen(120 if quick else 1200, 10, 'I', True, True), False))
+    # Variable / Constraint OBJECTS re-used across successive IncSolvers (destroy, rebuild on a subset, addConstraint the
+    # remaining - possibly previously active - objects); the model starts a fresh state at each rebuild
+    def gen_reuse(n, nmax):
+        out = []
+        for _ in range(n):
+            nid[0] += 1
+            out.append(L.gen_reuse_instance(rng, nid[0], nmax))
+        return out
+    sets.append(('reuse-vpsc', 'vpsc', gen_reuse(300 if quick else 3000, 8), False))
+    sets.append(('reuse-avoid', 'avoid', gen_reuse(150 if quick else 1500, 8), False))
     sets.append(('inc-vpsc-large', 'vpsc', gen(40 if quick else 600, 40), False))
 
     def gen_gp(n, nmax):
@@ -181,7 +194,8 @@ def run(tier):
     res.cov.update({'evaluations': evals, 'distinct_nontrivial': len(nontrivial),
                     'rule': 'one evaluation = one solve()/satisfy() return of the real solver checked by the verified oracles and (IncSolver) compared with '
                             'the extracted model; instances from SplitMix64(seed): DAGs, chains needing splits, cycles of total gap -1/0/+1, duplicates, '
-                            '25% equalities, scaled variables, negative/zero gaps, op histories (addConstraint / desired position / Variable::weight / re-solve) up to 8 ops; '
+                            '25% equalities, scaled variables, negative/zero gaps, op histories (addConstraint / desired position / Variable::weight / re-solve) up to 8 ops; constraint objects re-used across '
+                            'successive solvers (sets reuse-*); '
                             'static Solver on DAGs and on cyclic multigraphs (a throw of UnsatisfiedConstraint = reported; legitimate iff verified positive cycle); '
                             'non-trivial = distinct instances in which some constraint ended active or flagged unsatisfiable',
                     'exhaustive': False,
